@@ -1,1 +1,396 @@
-//! shared helpers of this crate's checks
+//! vx-fault: fault-point enumeration engine of C34 (DESIGN.md section 3, C34).
+//!
+//! A *write operation* is a closure that receives a scripted writer and returns `Ok`/`Err`.
+//! A fault-free run records the number of calls W the operation made on the writer, the bytes B
+//! it produced and the byte offset at which every call started. Then every fault point is
+//! executed from scratch: `Err` at call i (all i < W), `Err` after exactly b accepted bytes
+//! (b < B), `Ok(0)` at call i. Reads are symmetric (`Err` at call i, `Err` after b bytes).
+//! Oracle: whenever the injected fault really fired, the operation must return `Err`; it must
+//! never panic.
+
+use serde_json::{json, Map, Value};
+use std::io::{self, Read, Write};
+use std::sync::atomic::{AtomicBool, Ordering};
+use std::sync::{Arc, Mutex};
+use vx_kit::io::{ScriptRead, ScriptWrite, WriteFault};
+use vx_kit::{guard, Local};
+
+pub mod data;
+pub mod ul;
+
+// ---------------------------------------------------------------------------------------------
+// scripted writer with a call log
+// ---------------------------------------------------------------------------------------------
+
+/// `ScriptWrite` plus a log of (is_flush, offset before the call) for every call.
+#[derive(Clone)]
+pub struct TapWrite {
+    pub inner: ScriptWrite,
+    pub log: Arc<Mutex<Vec<(bool, usize)>>>,
+}
+
+impl TapWrite {
+    pub fn new(fault: Option<WriteFault>) -> Self {
+        TapWrite { inner: ScriptWrite::new(fault), log: Arc::new(Mutex::new(vec![])) }
+    }
+    fn have(&self) -> usize {
+        self.inner.out.lock().unwrap().len()
+    }
+}
+
+impl Write for TapWrite {
+    fn write(&mut self, buf: &[u8]) -> io::Result<usize> {
+        let off = self.have();
+        self.log.lock().unwrap().push((false, off));
+        self.inner.write(buf)
+    }
+    fn flush(&mut self) -> io::Result<()> {
+        let off = self.have();
+        self.log.lock().unwrap().push((true, off));
+        self.inner.flush()
+    }
+}
+
+/// `ScriptRead` plus a flag telling whether an `Err` was really handed to the caller.
+pub struct SpyRead {
+    pub inner: ScriptRead,
+    pub fired: Arc<AtomicBool>,
+    pub calls: Arc<Mutex<usize>>,
+    pub delivered: Arc<Mutex<usize>>,
+}
+
+impl Read for SpyRead {
+    fn read(&mut self, buf: &mut [u8]) -> io::Result<usize> {
+        *self.calls.lock().unwrap() += 1;
+        match self.inner.read(buf) {
+            Ok(n) => {
+                *self.delivered.lock().unwrap() += n;
+                Ok(n)
+            }
+            Err(e) => {
+                self.fired.store(true, Ordering::SeqCst);
+                Err(e)
+            }
+        }
+    }
+}
+
+// ---------------------------------------------------------------------------------------------
+// fault plans
+// ---------------------------------------------------------------------------------------------
+
+pub fn fault_label(f: WriteFault) -> String {
+    match f {
+        WriteFault::ErrAtCall(i) => format!("ec{i}"),
+        WriteFault::ErrAfterBytes(b) => format!("eb{b}"),
+        WriteFault::ZeroAtCall(i) => format!("zc{i}"),
+    }
+}
+pub fn fault_kind(f: WriteFault) -> &'static str {
+    match f {
+        WriteFault::ErrAtCall(_) => "err-at-call",
+        WriteFault::ErrAfterBytes(_) => "err-after-bytes",
+        WriteFault::ZeroAtCall(_) => "zero-at-call",
+    }
+}
+
+/// Byte offsets b < total at which a fault is injected: all of them when `total <= all_limit`,
+/// otherwise the first and last 64, every call boundary +-1, and every 97th byte.
+pub fn byte_points(total: usize, boundaries: &[usize], all_limit: usize) -> Vec<usize> {
+    if total <= all_limit {
+        return (0..total).collect();
+    }
+    let mut v: Vec<usize> = vec![];
+    v.extend(0..64.min(total));
+    v.extend(total.saturating_sub(64)..total);
+    for &b in boundaries {
+        for d in [b.wrapping_sub(1), b, b + 1] {
+            if d < total {
+                v.push(d);
+            }
+        }
+    }
+    v.extend((0..total).step_by(97));
+    v.sort();
+    v.dedup();
+    v
+}
+
+pub struct WriteBase {
+    pub calls: usize,
+    pub bytes: Vec<u8>,
+    /// (is_flush, offset before the call)
+    pub log: Vec<(bool, usize)>,
+}
+
+pub struct WriteRun {
+    /// Err(panic message) | Ok(operation result)
+    pub result: Result<Result<(), String>, String>,
+    pub accepted: Vec<u8>,
+    pub calls: usize,
+    pub fired: bool,
+    pub log: Vec<(bool, usize)>,
+}
+
+pub fn run_write<F>(op: &F, fault: Option<WriteFault>) -> WriteRun
+where
+    F: Fn(TapWrite) -> Result<(), String>,
+{
+    let w = TapWrite::new(fault);
+    let handle = w.clone();
+    let result = guard(|| op(w));
+    let log = handle.log.lock().unwrap().clone();
+    WriteRun {
+        result,
+        accepted: handle.inner.bytes(),
+        calls: handle.inner.call_count(),
+        fired: handle.inner.fault_fired(),
+        log,
+    }
+}
+
+pub fn merge(base: &Value, extra: Value) -> Value {
+    let mut m: Map<String, Value> = base.as_object().cloned().unwrap_or_default();
+    if let Some(e) = extra.as_object() {
+        for (k, v) in e {
+            m.insert(k.clone(), v.clone());
+        }
+    }
+    Value::Object(m)
+}
+
+fn short(s: &str) -> String {
+    s.chars().take(240).collect()
+}
+pub fn hex_head(b: &[u8]) -> String {
+    b.iter().take(96).map(|x| format!("{x:02X}")).collect::<Vec<_>>().join("")
+}
+
+/// Enumerate every write fault point of one operation.
+///
+/// * `validate(bytes)`: the fault-free output must be parseable (machinery error otherwise);
+/// * `annotate(accepted, base)`: extra class keys for a failing case (e.g. whether the accepted
+///   bytes still carry the complete payload).
+pub fn enumerate_write<F, V, A>(
+    l: &mut Local,
+    base_id: &str,
+    class: &Value,
+    all_limit: usize,
+    op: &F,
+    validate: &V,
+    annotate: &A,
+) where
+    F: Fn(TapWrite) -> Result<(), String>,
+    V: Fn(&[u8]) -> Result<(), String>,
+    A: Fn(&[u8], &WriteBase) -> Value,
+{
+    // fault-free run (always executed: the plan depends on it)
+    let r0 = run_write(op, None);
+    let base = match &r0.result {
+        Ok(Ok(())) => WriteBase { calls: r0.calls, bytes: r0.accepted.clone(), log: r0.log.clone() },
+        Ok(Err(e)) => {
+            l.check.machinery_error(&format!("{base_id}: fault-free write returned Err: {}", short(e)));
+            return;
+        }
+        Err(p) => {
+            l.check.machinery_error(&format!("{base_id}: fault-free write panicked: {}", short(p)));
+            return;
+        }
+    };
+    if let Err(m) = validate(&base.bytes) {
+        l.check.machinery_error(&format!("{base_id}: fault-free output does not parse: {}", short(&m)));
+        return;
+    }
+    let free_id = format!("{base_id}/free");
+    if l.want(&free_id) {
+        l.eval();
+        l.outcome_with("fault-free-ok", || json!({"case": free_id, "calls": base.calls, "bytes": base.bytes.len()}));
+    }
+    let boundaries: Vec<usize> = base.log.iter().map(|(_, o)| *o).collect();
+    let mut plan: Vec<WriteFault> = vec![];
+    for i in 0..base.calls {
+        plan.push(WriteFault::ErrAtCall(i));
+    }
+    for b in byte_points(base.bytes.len(), &boundaries, all_limit) {
+        plan.push(WriteFault::ErrAfterBytes(b));
+    }
+    for i in 0..base.calls {
+        plan.push(WriteFault::ZeroAtCall(i));
+    }
+    for f in plan {
+        let case_id = format!("{base_id}/{}", fault_label(f));
+        if !l.want(&case_id) {
+            continue;
+        }
+        l.eval();
+        let run = run_write(op, Some(f));
+        let call_kind = match f {
+            WriteFault::ErrAtCall(i) | WriteFault::ZeroAtCall(i) => {
+                if base.log.get(i).map(|x| x.0).unwrap_or(false) { "flush" } else { "write" }
+            }
+            WriteFault::ErrAfterBytes(_) => "write",
+        };
+        let cls = |extra: Value| merge(&merge(class, json!({"dir": "write", "fault": fault_kind(f), "fault_call": call_kind})), extra);
+        let detail = |run: &WriteRun, msg: &str| {
+            json!({"fault": fault_label(f), "fault_free_calls": base.calls, "fault_free_bytes": base.bytes.len(),
+                   "accepted_bytes": run.accepted.len(), "calls_made": run.calls, "message": msg,
+                   "fault_free_head": hex_head(&base.bytes)})
+        };
+        match &run.result {
+            Err(p) => {
+                l.nontrivial(&case_id);
+                l.outcome("panic");
+                l.fail(&case_id, cls(json!({"kind": "panic"})), detail(&run, &short(p)));
+            }
+            Ok(Ok(())) if run.fired => {
+                l.nontrivial(&case_id);
+                l.outcome("ok-despite-fault");
+                let ann = annotate(&run.accepted, &base);
+                let complete = run.accepted == base.bytes;
+                l.fail(
+                    &case_id,
+                    merge(&cls(json!({"kind": "ok-despite-fault", "accepted_all_bytes": complete})), ann),
+                    detail(&run, "operation returned Ok although the writer failed"),
+                );
+            }
+            Ok(Err(e)) if run.fired => {
+                l.nontrivial(&case_id);
+                l.outcome_with("err-reported", || json!({"case": case_id, "error": short(e)}));
+            }
+            Ok(Ok(())) => {
+                // the fault point was not reached (Ok(0) scheduled on a flush call): same as fault-free
+                if run.accepted != base.bytes {
+                    l.check.machinery_error(&format!("{case_id}: fault not fired but output differs from the fault-free run"));
+                }
+                l.outcome("fault-not-reached-ok");
+            }
+            Ok(Err(e)) => {
+                l.check.machinery_error(&format!("{case_id}: fault not fired but operation returned Err: {}", short(e)));
+            }
+        }
+    }
+}
+
+// ---------------------------------------------------------------------------------------------
+// reads
+// ---------------------------------------------------------------------------------------------
+
+#[derive(Clone, Copy, Debug)]
+pub enum ReadFault {
+    ErrAtCall(usize),
+    ErrAfterBytes(usize),
+}
+pub fn read_fault_label(f: ReadFault) -> String {
+    match f {
+        ReadFault::ErrAtCall(i) => format!("rc{i}"),
+        ReadFault::ErrAfterBytes(b) => format!("rb{b}"),
+    }
+}
+
+pub struct ReadRun {
+    pub result: Result<Result<(), String>, String>,
+    pub fired: bool,
+    pub calls: usize,
+    pub delivered: usize,
+}
+
+pub fn run_read<F>(op: &F, data: &[u8], fault: Option<ReadFault>) -> ReadRun
+where
+    F: Fn(SpyRead) -> Result<(), String>,
+{
+    let mut sr = ScriptRead::whole(data.to_vec());
+    match fault {
+        Some(ReadFault::ErrAtCall(i)) => sr.fail_at_call = Some(i),
+        Some(ReadFault::ErrAfterBytes(b)) => sr.fail_after_bytes = Some(b),
+        None => {}
+    }
+    let fired = Arc::new(AtomicBool::new(false));
+    let calls = Arc::new(Mutex::new(0usize));
+    let delivered = Arc::new(Mutex::new(0usize));
+    let spy = SpyRead { inner: sr, fired: fired.clone(), calls: calls.clone(), delivered: delivered.clone() };
+    let result = guard(|| op(spy));
+    let c = *calls.lock().unwrap();
+    let d = *delivered.lock().unwrap();
+    ReadRun { result, fired: fired.load(Ordering::SeqCst), calls: c, delivered: d }
+}
+
+/// Enumerate every read fault point of one operation over the byte string `data`.
+pub fn enumerate_read<F>(l: &mut Local, base_id: &str, class: &Value, all_limit: usize, data: &[u8], op: &F)
+where
+    F: Fn(SpyRead) -> Result<(), String>,
+{
+    let r0 = run_read(op, data, None);
+    match &r0.result {
+        Ok(Ok(())) => {}
+        Ok(Err(e)) => {
+            l.check.machinery_error(&format!("{base_id}: fault-free read returned Err: {}", short(e)));
+            return;
+        }
+        Err(p) => {
+            l.check.machinery_error(&format!("{base_id}: fault-free read panicked: {}", short(p)));
+            return;
+        }
+    }
+    let free_id = format!("{base_id}/free");
+    if l.want(&free_id) {
+        l.eval();
+        l.outcome_with("fault-free-ok", || json!({"case": free_id, "read_calls": r0.calls, "bytes": r0.delivered}));
+    }
+    let mut plan = vec![];
+    for i in 0..r0.calls {
+        plan.push(ReadFault::ErrAtCall(i));
+    }
+    // boundaries: every multiple of the 8 KiB BufReader capacity
+    let boundaries: Vec<usize> = (0..=r0.delivered / 8192).map(|k| k * 8192).collect();
+    for b in byte_points(r0.delivered, &boundaries, all_limit) {
+        plan.push(ReadFault::ErrAfterBytes(b));
+    }
+    for f in plan {
+        let case_id = format!("{base_id}/{}", read_fault_label(f));
+        if !l.want(&case_id) {
+            continue;
+        }
+        l.eval();
+        let run = run_read(op, data, Some(f));
+        let kind = match f {
+            ReadFault::ErrAtCall(_) => "err-at-call",
+            ReadFault::ErrAfterBytes(_) => "err-after-bytes",
+        };
+        let cls = |extra: Value| merge(&merge(class, json!({"dir": "read", "fault": kind})), extra);
+        let detail = |msg: &str| {
+            json!({"fault": read_fault_label(f), "fault_free_calls": r0.calls, "fault_free_bytes": r0.delivered,
+                   "delivered": run.delivered, "calls_made": run.calls, "message": msg, "input_head": hex_head(data)})
+        };
+        match &run.result {
+            Err(p) => {
+                l.nontrivial(&case_id);
+                l.outcome("panic");
+                l.fail(&case_id, cls(json!({"kind": "panic"})), detail(&short(p)));
+            }
+            Ok(Ok(())) if run.fired => {
+                l.nontrivial(&case_id);
+                l.outcome("ok-despite-fault");
+                l.fail(&case_id, cls(json!({"kind": "ok-despite-fault"})), detail("operation returned Ok although the reader failed"));
+            }
+            Ok(Err(e)) if run.fired => {
+                l.nontrivial(&case_id);
+                l.outcome_with("err-reported", || json!({"case": case_id, "error": short(e)}));
+            }
+            Ok(Ok(())) => {
+                // the operation finished without calling the reader at the fault point; it must then
+                // have consumed the complete input, otherwise success was reported on a short read
+                if run.delivered != r0.delivered {
+                    l.nontrivial(&case_id);
+                    l.outcome("ok-on-truncated-input-without-fault");
+                    l.fail(&case_id, cls(json!({"kind": "ok-on-truncated-input"})), detail("Ok returned with fewer bytes than the fault-free run and no Err seen"));
+                } else {
+                    l.outcome("fault-not-reached-ok");
+                }
+            }
+            Ok(Err(_)) => {
+                // short delivery before the fault point made the operation give up on its own
+                l.outcome("err-before-fault-point");
+            }
+        }
+    }
+}
